@@ -71,6 +71,11 @@ def matrices(tier="quick"):
         ("shear", np.array([[1, 0.5, 0, 0], [0, 1, 0.25, 0], [0, 0, 1, 0], [0, 0, 0, 1.0]])),
         ("mirror_rot_scale", tf.rotation_matrix(1.1, [0, 1, 1]) @ np.diag([1.5, -1.5, 1.5, 1.0])),
         ("tiny_rotation", tf.rotation_matrix(5e-7, [0, 0, 1])),
+        # columns of equal length that are not orthogonal: not a similarity although every
+        # per-column / per-row scale test passes
+        ("equal_columns_skew", np.array([[1, np.sin(0.6), 0, 0.2], [0, np.cos(0.6), 0, 0], [0, 0, 1, -1], [0, 0, 0, 1.0]])),
+        ("equal_rows_skew_mirror", tf.rotation_matrix(0.4, [1, 0, 1]) @ np.array([[1, 0, 0, 0], [np.sin(0.5), np.cos(0.5), 0, 0], [0, 0, -1, 0], [0, 0, 0, 1.0]])),
+        ("det_one_stretch", np.diag([2.0, 0.5, 1.0, 1.0])),
     ]
     if tier == "thorough":
         out += [
